@@ -351,9 +351,28 @@ structure CState where
   cache : List (String × Entry)
   pending : List Task
   tk : TK
+  /-- GHOST (no counterpart in the code): the cache keys whose latest tracker call did not complete because
+  a batch syscall failed. Only the theorems read it. -/
+  dirty : List String
 deriving Repr, Inhabited
 
-def CState.init (cfg : Cfg) : CState := ⟨cfg.normalize, 0, 1, [], [], TK.empty⟩
+def CState.init (cfg : Cfg) : CState :=
+  { cfg := cfg.normalize, now := 0, nextId := 1, cache := [], pending := [], tk := TK.empty, dirty := [] }
+
+/-- What the batch syscalls of the tracker calls of ONE cache operation do, per owner (an operation syncs an
+owner at most once). Environment: the theorems quantify over every plan. -/
+abbrev Plan := Owner → Outcome
+
+def Plan.ok : Plan := fun _ => .ok
+
+def SyncRes.failed : SyncRes → Bool
+  | .updFailed => true
+  | .delFailed => true
+  | _ => false
+
+/-- ghost bookkeeping: `key`'s call failed (a batch syscall returned an error) / did not fail. -/
+def markDirty (res : SyncRes) (key : String) (d : List String) : List String :=
+  if res.failed then key :: d.filter (· ≠ key) else d.filter (· ≠ key)
 
 def sec : Nat := 1000000000
 
@@ -385,11 +404,16 @@ def baseKey (key : String) : String :=
   | [] => key
 
 /-- `LoadAndDelete`/`CompareAndDelete` succeeded + `invokeCacheDeleteCallback` (→ `BatchRemoveDomainRouting`). -/
-def CState.evict (σ : CState) (key : String) : CState :=
+def CState.evictP (σ : CState) (plan : Plan) (key : String) : CState :=
   if key = "" then σ else
   match alLookup key σ.cache with
   | none => σ
-  | some _ => { σ with cache := alErase key σ.cache, tk := σ.tk.sync key Snapshot.empty }
+  | some _ =>
+    -- the callback's error is only logged: the entry is gone from the cache either way
+    let r := σ.tk.syncO key Snapshot.empty (plan key)
+    { σ with cache := alErase key σ.cache, tk := r.1, dirty := markDirty r.2 key σ.dirty }
+
+def CState.evict (σ : CState) (key : String) : CState := σ.evictP Plan.ok key
 
 /-- `NeedsBpfUpdate` for an entry created by `__updateDnsCacheDeadline` / restored on reload (its data hash
 equals the marked one, so only the 60 s maximum interval triggers). Bookkeeping prediction only. -/
@@ -405,22 +429,33 @@ def CState.queueRefresh (σ : CState) (key : String) : CState :=
              pending := σ.pending ++ [⟨e.id, key, e.snap, σ.now⟩] }
 
 /-- `dnsCache.Store(key, entry)` of a fresh object + `cacheAccessCallback(entry)` (→ `BatchUpdateDomainRouting`). -/
-def CState.store (σ : CState) (key : String) (e : Entry) : CState :=
-  { σ with nextId := σ.nextId + 1, cache := alInsert key { e with id := σ.nextId } σ.cache,
-           tk := σ.tk.sync key e.snap }
+def CState.storeP (σ : CState) (plan : Plan) (key : String) (e : Entry) : CState :=
+  -- the entry is stored BEFORE the callback runs and stays cached when the callback fails; `MarkBpfUpdated`
+  -- is skipped then, so `lastRouteSyncNano` of the fresh object stays 0 and the next lookup queues a refresh
+  let r := σ.tk.syncO key e.snap (plan key)
+  { σ with nextId := σ.nextId + 1,
+           cache := alInsert key { e with id := σ.nextId, lastSync := if r.2 = .done then e.lastSync else 0 } σ.cache,
+           tk := r.1, dirty := markDirty r.2 key σ.dirty }
+
+def CState.store (σ : CState) (key : String) (e : Entry) : CState := σ.storeP Plan.ok key e
 
 /-- `processBpfUpdateTask` for a task taken from the queue (code after the fix "a queued domain-routing
 refresh is dropped when its DNS cache entry was replaced or removed meanwhile"): the task is applied only
 when the object it points to is still the one cached under its key (`cur == task.cache`, pointer identity
 = `id`); then `cacheAccessCallback(task.cache)` and `task.cache.MarkBpfUpdated(task.now)`. Otherwise it is
 dropped. (Unpublished objects with an empty `RouteOwnerKey` are never queued in this model.) -/
-def CState.applyTask (σ : CState) (t : Task) : CState :=
+def CState.applyTaskP (σ : CState) (plan : Plan) (t : Task) : CState :=
   match alLookup t.key σ.cache with
   | some e =>
     if e.id = t.id then
-      { σ with cache := alInsert t.key { e with lastSync := t.now } σ.cache, tk := σ.tk.sync t.key t.snap }
+      -- a failing callback is logged, `MarkBpfUpdated` skipped (the stamp claimed when queueing stays)
+      let r := σ.tk.syncO t.key t.snap (plan t.key)
+      { σ with cache := if r.2 = .done then alInsert t.key { e with lastSync := t.now } σ.cache else σ.cache,
+               tk := r.1, dirty := markDirty r.2 t.key σ.dirty }
     else σ
   | none => σ
+
+def CState.applyTask (σ : CState) (t : Task) : CState := σ.applyTaskP Plan.ok t
 
 /-- `processBpfUpdateTask` as it was BEFORE that fix (revert witness only): the task is applied
 unconditionally; `MarkBpfUpdated` touches the task's own object, visible only while still cached. -/
@@ -433,7 +468,8 @@ def CState.applyTaskUnguarded (σ : CState) (t : Task) : CState :=
 /-- `c.cacheKey(fqdn, qtype)` for an empty `cacheKey` argument. -/
 def effKey (key fqdn : String) (qtype : Nat) : String := if key = "" then fqdn ++ toString qtype else key
 
-def cstep (σ : CState) : COp → CState
+/-- one cache operation whose tracker calls meet the batch-syscall behaviour `plan`. -/
+def cstepP (σ : CState) (plan : Plan) : COp → CState
   | .put key fqdn qtype ttl fixedTtl bitmap ans =>
     let k := effKey key fqdn qtype
     if k = "" then σ else   -- cannot happen: `CanonicalName` never returns the empty string
@@ -441,19 +477,19 @@ def cstep (σ : CState) : COp → CState
       | some f => σ.now + f * sec
       | none => σ.now + ttl * sec
     -- a stored answer counts as used now (lastAccess)
-    σ.store k ⟨0, bitmap, ans, dl, σ.now + ttl * sec, σ.now, σ.now⟩
-  | .del key => σ.evict key
+    σ.storeP plan k ⟨0, bitmap, ans, dl, σ.now + ttl * sec, σ.now, σ.now⟩
+  | .del key => σ.evictP plan key
   | .fam base order =>
     if base = "" then σ else
-    order.foldl (fun σ k => if baseKey k = base then σ.evict k else σ) σ
+    order.foldl (fun σ k => if baseKey k = base then σ.evictP plan k else σ) σ
   | .look key evicted queued =>
-    if evicted then σ.evict key else if queued then σ.queueRefresh key else σ
-  | .jan order => order.foldl (fun σ k => σ.evict k) σ
+    if evicted then σ.evictP plan key else if queued then σ.queueRefresh key else σ
+  | .jan order => order.foldl (fun σ k => σ.evictP plan k) σ
   | .sleep ns => { σ with now := σ.now + ns }
   | .work =>
     match σ.pending with
     | [] => σ
-    | t :: rest => ({ σ with pending := rest } : CState).applyTask t
+    | t :: rest => ({ σ with pending := rest } : CState).applyTaskP plan t
   | .touch key =>
     match alLookup key σ.cache with
     | none => σ
@@ -463,42 +499,21 @@ def cstep (σ : CState) : COp → CState
     | none => σ
     | some e =>
       let σ1 : CState := { σ with cache := alInsert key { e with lastAccess := σ.now } σ.cache }
-      if evicted then σ1.evict key else if queued then σ1.queueRefresh key else σ1
+      if evicted then σ1.evictP plan key else if queued then σ1.queueRefresh key else σ1
   | .reload assign =>
     let old := σ.cache
     let order := assign ++ (old.filter fun p => (alLookup p.1 assign).isNone).map (fun p => (p.1, p.2.bitmap))
     order.foldl (fun σ p =>
       match alLookup p.1 old with
-      | some e => if p.1 = "" then σ else σ.store p.1 { e with bitmap := p.2, lastSync := σ.now }
-      | none => σ) { σ with cache := [], tk := ⟨Tracker.empty, [], σ.tk.log⟩ }
+      | some e => if p.1 = "" then σ else σ.storeP plan p.1 { e with bitmap := p.2, lastSync := σ.now }
+      | none => σ) { σ with cache := [], tk := ⟨Tracker.empty, [], σ.tk.log⟩, dirty := [] }
+
+/-- one cache operation whose batch syscalls all succeed. -/
+def cstep (σ : CState) (op : COp) : CState := cstepP σ Plan.ok op
+
+def crunP (σ : CState) (ops : List (Plan × COp)) : CState := ops.foldl (fun σ p => cstepP σ p.1 p.2) σ
 
 def crun (σ : CState) (ops : List COp) : CState := ops.foldl cstep σ
-
-/-! ### a put whose synchronous publish fails (environment: failing batch syscall) -/
-
-/-- `__updateDnsCacheDeadline` when `cacheAccessCallback` returns an error (the update batch of its
-`syncOwner` failed): the entry has already been stored, tracker and table are untouched, `MarkBpfUpdated` is
-skipped so `lastRouteSyncNano` stays 0 and the next lookup queues a refresh. -/
-def CState.storeUnsynced (σ : CState) (key : String) (e : Entry) : CState :=
-  { σ with nextId := σ.nextId + 1, cache := alInsert key { e with id := σ.nextId, lastSync := 0 } σ.cache }
-
-/-- cache operations plus the failing put. -/
-inductive FOp where
-  | op (o : COp)
-  | putFail (key fqdn : String) (qtype ttl : Nat) (fixedTtl : Option Nat) (bitmap : Bitmap) (ans : List Ans)
-deriving Repr, Inhabited
-
-def cstepF (σ : CState) : FOp → CState
-  | .op o => cstep σ o
-  | .putFail key fqdn qtype ttl fixedTtl bitmap ans =>
-    let k := effKey key fqdn qtype
-    if k = "" then σ else
-    let dl := match fixedTtl with
-      | some f => σ.now + f * sec
-      | none => σ.now + ttl * sec
-    σ.storeUnsynced k ⟨0, bitmap, ans, dl, σ.now + ttl * sec, 0, σ.now⟩
-
-def crunF (σ : CState) (ops : List FOp) : CState := ops.foldl cstepF σ
 
 /-- the same machine with the pre-fix worker (revert witness only; nothing else uses it). -/
 def cstepUnguarded (σ : CState) : COp → CState
@@ -576,5 +591,153 @@ def specOr (cache : List (String × Entry)) (ip : Ip) : Bitmap :=
 def mirrorOk (cache : List (String × Entry)) (K : Kernel) : Bool :=
   let addrs := K.map (·.1) ++ cache.flatMap (fun p => ansIps p.2.ans)
   addrs.all (fun ip => kernelVal K ip == specOr cache ip) && K.all (fun p => kernelVal K p.1 != 0)
+
+/-! ## the kernel hash map has a capacity: partial application of a failing update batch
+
+`domain_routing_map` is a `BPF_MAP_TYPE_HASH` with `BPF_F_NO_PREALLOC` and `max_entries = 65536`. The kernel's
+`BPF_MAP_UPDATE_BATCH` applies the pairs in the order given and stops at the first pair that fails: inserting a
+NEW key into a full map fails with `E2BIG`, replacing an existing key never does. The prefix before the failing
+pair stays applied. `syncOwner` then returns before the delete batch and before applying the snapshot. -/
+
+/-- `BPF_MAP_UPDATE_BATCH` on a hash map of at most `cap` elements: the table afterwards and whether the whole
+batch was applied. -/
+def batchUpdCap (cap : Nat) : Kernel → List (Ip × Bitmap) → Kernel × Bool
+  | K, [] => (K, true)
+  | K, p :: rest =>
+    if (alLookup p.1 K).isSome || decide (K.length < cap) then batchUpdCap cap (alInsert p.1 p.2 K) rest
+    else (K, false)
+
+/-- the update batch in the order the implementation sent it (`keysToUpdate` is filled by ranging over a Go
+map, so the order is unspecified: it is observed and told to the model). Keys the observation does not
+mention keep the model's order, at the end. -/
+def reorder (ups : List (Ip × Bitmap)) (order : List Ip) : List (Ip × Bitmap) :=
+  order.filterMap (fun k => (alLookup k ups).map fun v => (k, v)) ++ ups.filter (fun p => !order.contains p.1)
+
+/-- `syncOwner` against a map of capacity `cap` (plus the injected behaviours of `TK.syncO`). -/
+def TK.syncCap (s : TK) (cap : Nat) (order : List Ip) (o : Owner) (snap : Snapshot) (oc : Outcome) : TK × SyncRes :=
+  match syncOwner s.t o snap with
+  | none => (s, .rejected)
+  | some (t', em) =>
+    if oc = .updFail ∧ em.ups ≠ [] then (s, .updFailed)
+    else
+      let r := batchUpdCap cap s.K (reorder em.ups order)
+      if !r.2 then (⟨s.t, r.1, s.log⟩, .updFailed)
+      else if oc = .delFail ∧ em.dels ≠ [] then
+        (⟨s.t, r.1, if em.ups.isEmpty then s.log else s.log ++ [(o, ⟨em.ups, []⟩)]⟩, .delFailed)
+      else (⟨t', em.dels.foldl (fun K k => alErase k K) r.1, s.log ++ [(o, em)]⟩, .done)
+
+/-- `BatchUpdateDomainRouting(cache)` against a map of capacity `cap`, the update batch sent in `order`. -/
+def batchUpdateC (s : TK) (cap : Nat) (order : List Ip) (c : CacheView) (oc : Outcome) : TK × CoreErr :=
+  if c.bmLen ≠ bitmapWords then (s, .bitmapLen)
+  else
+    let r := s.syncCap cap order c.owner ⟨c.bitmap, ansIps c.ans⟩ oc
+    (r.1, CoreErr.ofRes r.2)
+
+/-- `BatchRemoveDomainRouting(cache)` against a map of capacity `cap`. -/
+def batchRemoveC (s : TK) (cap : Nat) (order : List Ip) (c : CacheView) (oc : Outcome) : TK × CoreErr :=
+  let r := s.syncCap cap order c.owner Snapshot.empty oc
+  (r.1, CoreErr.ofRes r.2)
+
+/-- a batch of which only SOME entries reached the table (any subset, in any order): what a failing batch
+syscall may leave behind. -/
+def applySome (K : Kernel) (ups : List (Ip × Bitmap)) (dels : List Ip) : Kernel :=
+  dels.foldl (fun K k => alErase k K) (ups.foldl (fun K p => alInsert p.1 p.2 K) K)
+
+/-! ## `syncOwner` as a transition system: the tracker mutex and the two batch syscalls as separate steps
+
+`syncOwner` takes `t.mu`, computes the two batches from the tracker, sends the update batch, sends the delete
+batch, applies the snapshot to the tracker and releases `t.mu` (deferred unlock). Several goroutines (DNS
+request handlers, the refresh worker, the janitor) call it concurrently. -/
+
+inductive Stage where
+  | locked    -- holds `t.mu`; batches computed, nothing sent yet
+  | updSent   -- the update batch is in the table
+  | delSent   -- the delete batch is in the table too; the snapshot is not applied yet
+deriving DecidableEq, Repr, Inhabited
+
+/-- who holds `t.mu` and how far its call has got. -/
+structure Hold where
+  tid : Nat
+  o : Owner
+  s : Snapshot
+  stage : Stage
+deriving Repr, Inhabited
+
+/-- the tracker, the table, the mutex, each goroutine's remaining calls, and (ghost) the calls in the order
+they committed. -/
+structure Sys where
+  t : Tracker
+  K : Kernel
+  lock : Option Hold
+  todo : List (List (Owner × Snapshot))
+  done : List (Owner × Snapshot)
+deriving Repr, Inhabited
+
+def Sys.init (progs : List (List (Owner × Snapshot))) : Sys := ⟨Tracker.empty, [], none, progs, []⟩
+
+def setNth {α} : List α → Nat → α → List α
+  | [], _, _ => []
+  | _ :: l, 0, a => a :: l
+  | b :: l, n + 1, a => b :: setNth l n a
+
+/-- one step of goroutine `i` (a step that is not enabled leaves the state unchanged). -/
+def tstep (σ : Sys) (i : Nat) : Sys :=
+  match σ.lock with
+  | none =>
+    -- `t.mu.Lock()` succeeds only when nobody holds the mutex
+    match σ.todo[i]? with
+    | some ((o, s) :: rest) =>
+      if o = "" then { σ with todo := setNth σ.todo i rest }   -- rejected before the lock is taken
+      else { σ with lock := some ⟨i, o, s, .locked⟩, todo := setNth σ.todo i rest }
+    | _ => σ
+  | some h =>
+    if h.tid ≠ i then σ   -- everybody else is blocked in `t.mu.Lock()`
+    else
+      let em := emitFor σ.t h.o h.s (affected σ.t h.o h.s)
+      match h.stage with
+      | .locked => { σ with K := em.ups.foldl (fun K p => alInsert p.1 p.2 K) σ.K, lock := some { h with stage := .updSent } }
+      | .updSent => { σ with K := em.dels.foldl (fun K k => alErase k K) σ.K, lock := some { h with stage := .delSent } }
+      | .delSent => { σ with t := applySnapshot σ.t h.o h.s, lock := none, done := σ.done ++ [(h.o, h.s)] }
+
+/-- a schedule = which goroutine moves next. -/
+def srun (σ : Sys) (sched : List Nat) : Sys := sched.foldl tstep σ
+
+/-- every goroutine has finished its program and nobody holds the mutex. -/
+def Sys.finished (σ : Sys) : Bool := σ.lock.isNone && σ.todo.all (·.isEmpty)
+
+/-! ### the same with the snapshot applied and the mutex released BEFORE the syscalls (negative witness only) -/
+
+structure HoldE where
+  tid : Nat
+  ups : List (Ip × Bitmap)
+  dels : List Ip
+deriving Repr, Inhabited
+
+structure SysE where
+  t : Tracker
+  K : Kernel
+  inflight : List HoldE   -- calls that have released the mutex and still owe their batches
+  todo : List (List (Owner × Snapshot))
+deriving Repr, Inhabited
+
+def tstepE (σ : SysE) (i : Nat) : SysE :=
+  match σ.inflight.find? (·.tid = i) with
+  | some h =>
+    let others := σ.inflight.filter (·.tid ≠ i)
+    if h.ups ≠ [] then
+      { σ with K := h.ups.foldl (fun K p => alInsert p.1 p.2 K) σ.K,
+               inflight := if h.dels = [] then others else ⟨i, [], h.dels⟩ :: others }
+    else { σ with K := h.dels.foldl (fun K k => alErase k K) σ.K, inflight := others }
+  | none =>
+    match σ.todo[i]? with
+    | some ((o, s) :: rest) =>
+      if o = "" then { σ with todo := setNth σ.todo i rest }
+      else
+        let em := emitFor σ.t o s (affected σ.t o s)
+        { σ with t := applySnapshot σ.t o s, todo := setNth σ.todo i rest,
+                 inflight := if em.ups = [] ∧ em.dels = [] then σ.inflight else ⟨i, em.ups, em.dels⟩ :: σ.inflight }
+    | _ => σ
+
+def srunE (σ : SysE) (sched : List Nat) : SysE := sched.foldl tstepE σ
 
 end DaeVerif.C10
